@@ -9,6 +9,7 @@ import (
 	"encoding/json"
 	"fmt"
 	"math/big"
+	"os"
 	"sort"
 	"strings"
 	"time"
@@ -18,6 +19,7 @@ import (
 	"github.com/LemoFoundationLtd/lemochain-core/chain/params"
 	"github.com/LemoFoundationLtd/lemochain-core/chain/types"
 	"github.com/LemoFoundationLtd/lemochain-core/common"
+	"github.com/LemoFoundationLtd/lemochain-core/common/log"
 )
 
 func init() {
@@ -838,7 +840,13 @@ func ledgerEpoch(c *Ctx, mode string, nBlocks int, epoch int) {
 				return "rejected"
 			}
 			if mode == "c01" {
-				l.rebuildChecks(b, txs, t, byHash, blockGas, k)
+				if n.BC.StableBlock().Hash() == b.Hash() {
+					// a term with a single deputy: the miner's own signature makes the block stable at once, its parent's
+					// view is gone — re-mining on the parent is not possible any more
+					c.Count("c01:rebuild-skipped(block-stable-at-once)")
+				} else {
+					l.rebuildChecks(b, txs, t, byHash, blockGas, k)
+				}
 				l.redoChecks(b)
 			}
 			var sel, inv []string
@@ -862,8 +870,23 @@ func ledgerEpoch(c *Ctx, mode string, nBlocks int, epoch int) {
 						contracts = append(contracts, cl.Address)
 					}
 				}
-				l.crossNode(nb, b, txs, t, byHash)
-				if rnd.Intn(7) == 0 {
+				if !l.crossNode(nb, b, txs, t, byHash) {
+					// node B lost the chain: a fresh follower replays node A's blocks (with their confirmations)
+					Safe(func() string { nb.Close(); return "" })
+					nb = w.NewNode(3)
+					for h := uint32(1); h <= b.Height(); h++ {
+						blk := n.BC.GetBlockByHeight(h)
+						if blk == nil {
+							break
+						}
+						if e := nb.Insert(CloneBlock(blk)); e != nil {
+							c.Fail("c01/honest-block-rejected/fresh-follower", fmt.Sprintf("block %d of node A's chain is rejected by a fresh node replaying it: %v", h, e), nil)
+							break
+						}
+						l.confirmAll(nb, blk)
+					}
+					c.Count("nodeB:replaced-by-fresh-follower")
+				} else if rnd.Intn(7) == 0 {
 					nb.Reopen()
 					c.Count("nodeB:reopen")
 				}
@@ -1284,18 +1307,39 @@ func (l *ledger) tallyOK(h common.Hash, cand common.Address) bool {
 
 // crossNode: C01's direct oracle. Node B (other history, sometimes restarted) validates the block node A
 // mined; then everything either node can say about the block and the touched accounts must be equal.
-func (l *ledger) crossNode(nb *Node, b *types.Block, cands types.Transactions, t uint32, byHash map[common.Hash]*ledgerTx) {
+// Returns false when node B cannot follow node A any more (it has to be replaced by a fresh follower).
+func (l *ledger) crossNode(nb *Node, b *types.Block, cands types.Transactions, t uint32, byHash map[common.Hash]*ledgerTx) bool {
 	c := l.c
 	if e := nb.Insert(CloneBlock(b)); e != nil {
+		if deputynode.IsSnapshotBlock(b.Height()) {
+			// does node B (restarted at some point) publish another candidate top list for the parent than node A did?
+			// That is C10's known restart / tie defect of the store's ranking (c10/restart-differs,
+			// c10/top-not-sorted-prefix/tie), seen here as the deputy-root check of the snapshot block failing.
+			mine := Safe(func() string {
+				am := account.NewManager(b.ParentHash(), nb.DB)
+				return topLoader{nb, am}.LoadTopCandidates(b.ParentHash()).String()
+			})
+			if mine != b.DeputyNodes.String() {
+				c.Fail("c10/restart-differs/snapshot-block-rejected-by-restarted-node", fmt.Sprintf("snapshot block %d mined on node A names deputies %s, the restarted node B computes %s for the same parent", b.Height(), b.DeputyNodes.String(), mine), nil)
+				c.Count("nodeB:top-list-differs-after-restart(c10)")
+				return false
+			}
+		}
+		if os.Getenv("HX_DEBUG") != "" {
+			log.Setup(log.LevelWarn, false, true)
+			nb.Insert(CloneBlock(b))
+			log.Setup(log.LevelCrit, false, false)
+			os.Exit(3)
+		}
 		c.Fail("c01/honest-block-rejected/other-node", fmt.Sprintf("block %d mined on node A is rejected by node B: %v", b.Height(), e), nil)
-		return
+		return false
 	}
 	l.confirmAll(nb, b)
 	ba := l.n.BC.GetBlockByHash(b.Hash())
 	bb := nb.BC.GetBlockByHash(b.Hash())
 	if ba == nil || bb == nil {
 		c.Fail("c01/block-missing", fmt.Sprintf("block %d not readable after insertion (A=%v B=%v)", b.Height(), ba != nil, bb != nil), nil)
-		return
+		return true
 	}
 	if ba.VersionRoot() != bb.VersionRoot() || ba.LogRoot() != bb.LogRoot() || ba.TxRoot() != bb.TxRoot() || ba.GasUsed() != bb.GasUsed() {
 		c.Fail("c01/roots-differ", fmt.Sprintf("block %d: stored header differs between nodes", b.Height()), nil)
@@ -1320,6 +1364,7 @@ func (l *ledger) crossNode(nb *Node, b *types.Block, cands types.Transactions, t
 		}
 		c.Count("c01:accounts-compared")
 	}
+	return true
 }
 
 // rebuildChecks: must run while the block is still unconfirmed (its parent view is still addressable).
@@ -1355,6 +1400,9 @@ func (l *ledger) rebuildChecks(b *types.Block, cands types.Transactions, t uint3
 			continue
 		}
 		if b2.Hash() != b.Hash() {
+			if os.Getenv("HX_DEBUG") != "" {
+				fmt.Fprintf(os.Stderr, "REBUILD DIFF block %d\n A: %s\n B: %s\n", b.Height(), fmt.Sprint(b.ChangeLogs), fmt.Sprint(b2.ChangeLogs))
+			}
 			what := "discarded-candidates"
 			if rep == 1 {
 				what = "repeat-same-input"
